@@ -50,6 +50,7 @@ def check(run, repo, tier):
   V(run, repo, r4_rebuild)
   V(run, repo, r5_ownership)
   V(run, repo, r6_reference_index)
+  H.finish_views(run, repo)
 
 
 def r6_reference_index(run, w):
@@ -593,7 +594,7 @@ def _len_set(flow, atoms, param):
   unknown = []
   for (t, pol) in atoms:
     sub = _LenSubst(param)
-    e = sub.visit(flow.du.inline(t, stop=(param,)))
+    e = sub.visit(H.inline(flow, t, stop=(param,)))
     if sub.other:
       unknown.append(t)
       continue
@@ -816,7 +817,7 @@ def r4_rebuild(run, w):
       if okr:
         lv = el.gens[0][0].id
         okr = text(el.elt.elts[0]) == lv
-        val = flow.du.inline(el.elt.elts[1], stop=(lv,))
+        val = H.inline(flow, el.elt.elts[1], stop=(lv,))
         reads = [c for c in ast.walk(val) if isinstance(c, ast.Call) and
                  _xname(fn, c.func) == "self._relation.get_affected_rows" and len(c.args) == 1 and
                  isinstance(c.args[0], ast.Tuple) and [text(e) for e in c.args[0].elts] == [lv]]
